@@ -63,6 +63,33 @@ def swap_events(b):
 
 demo("EvalTrace", "EvalTrace", "EvalTrace.cfg", tr, [("one result state flipped", flip_state), ("one event dropped", drop_event), ("two events swapped", swap_events)])
 
+# --- EvalResultTrace (second level: results only)
+rtr = []
+for tid, (expr, asg) in enumerate(cases[:15], start=1):
+    import asyncio  # noqa: E402
+    got = asyncio.run(E.eval_real(expr, asg))
+    tree = E.eval_tree_of(expr)
+    final = {"err": got["err"] or "nil", "st": "-", "fcx": []}
+    if got["err"] is None:
+        final["st"] = E._OUTCOME_INV[got["outcome"]]
+        final["fcx"] = E._to_list(E.real_fc_ast(got["fc_expr"])) if got["fc_expr"] else []
+    rtr.append({"id": tid, "asg": [[k, v] for k, v in sorted(asg.items())], "tree": tree, "final": final})
+
+
+def flip_final(b):
+    t = next(t for t in b if t["final"]["err"] == "nil")
+    t["final"]["st"] = {"F": "U", "U": "F", "K": "F", "N": "F"}[t["final"]["st"]]
+    return t["id"]
+
+
+def claim_error(b):
+    t = [t for t in b if t["final"]["err"] == "nil"][1]
+    t["final"] = {"err": "invalid", "st": "-", "fcx": []}
+    return t["id"]
+
+
+demo("EvalResultTrace", "EvalResultTrace", "EvalResultTrace.cfg", rtr, [("final state flipped", flip_final), ("an error claimed for a valid expression", claim_error)])
+
 # --- CondParserTrace
 import c01  # noqa: E402
 import condparse as CP  # noqa: E402
